@@ -175,3 +175,29 @@ void h_jdn_dict(void) {
   if (fail && c == 2) REACH("jdn: a value refused");
   REACH("print_jdn_one returns");
 }
+/* (a) cyclic data, REAL recursion (no child stub): an array that contains itself and a table that holds itself as a value are refused when
+ * the budget runs out, after exactly `depth` levels - the printer never recurses without bound.  (Observation: the `seen` table of struct pretty
+ * is written by print_jdn_one - janet_table_put(&S->seen, x, true) for every array and table - but never read: cycles are caught by the depth
+ * budget alone, so a shared (non-cyclic) substructure is simply printed twice, which is what a notation without references requires.) */
+void h_jdn_cycle(void) {
+  pj_setup();
+#ifndef CYCLE_TABLE
+#define CYCLE_TABLE 0
+#endif
+  int which = CYCLE_TABLE;       /* constant per unit: a symbolic value type makes symex explore every case at every level */
+  JanetArray *a = malloc(sizeof(JanetArray)); a->data = malloc(sizeof(Janet)); a->count = 1; a->capacity = 1; a->gc.flags = 0;
+  JanetTable *t = malloc(sizeof(JanetTable)); t->data = malloc(sizeof(JanetKV)); t->capacity = 1; t->count = 1; t->deleted = 0; t->proto = (JanetTable *) 0; t->gc.flags = 0;
+  a->data[0] = mkp(JANET_ARRAY, a);
+  t->data[0].key = mk(JANET_NUMBER, 0x3ff0000000000000ull); t->data[0].value = mkp(JANET_TABLE, t);
+  Janet x = which ? mkp(JANET_TABLE, t) : mkp(JANET_ARRAY, a);
+  int r = print_jdn_one(&g_S, x, 3);
+  PJ(r == 1, "cyclic data is refused (the depth budget runs out) instead of being followed forever");
+  if (!which) {
+    PJ(g_nlog == 6, "exactly three levels of the self-containing array were opened");
+    for (int i = 0; i < 6; i++) PJ(g_log[i] == ((i & 1) ? '[' : '@'), "exactly three levels of the self-containing array were opened");
+  } else {
+    PJ(g_nlog == 10, "exactly three levels of the self-containing table were opened (the key of the third level already finds the budget exhausted)");
+    for (int i = 0; i < 10; i++) PJ(g_log[i] == ((i % 4) == 0 ? '@' : (i % 4) == 1 ? '{' : (i % 4) == 2 ? L_NUM : ' '), "exactly three levels of the self-containing table were opened");
+  }
+  REACH("print_jdn_one returns");
+}
